@@ -14,7 +14,8 @@ B1 == [id |-> "sirj",
        anch |-> [tpar |-> "rec", c1 |-> "inf", c2 |-> "sus", fpar |-> "foi", p2 |-> "mort"],
        pb |-> [progs |-> {"P1", "P2"}, dupprogs |-> 0, tpops |-> {"adults", "kids"}, tcomps |-> {"inf", "sus"}, epars |-> {"rec", "mort"}, epops |-> {"adults", "kids"},
                eprogs |-> {"P1", "P2"}, iprogs |-> {"P1", "P2"}, untargeted |-> {}, defects |-> {}]]
-MCBases == <<B1>>
+B2 == [B1 @@ [timed |-> {"wane"}] EXCEPT !.id = "sirt"]
+MCBases == <<B1, B2>>
 MCMutations == {"none", "add_output_parameter", "undefined_compartment_in_transition", "undefined_parameter_in_transition", "duplicate_code_name", "duplicate_display_name", "reserved_name",
                 "junction_outflow_not_proportion", "proportion_on_ordinary_link", "source_outflow_not_number", "sink_outflow", "inflow_to_source", "self_reference", "cyclic_functions",
                 "unsupported_call", "undefined_dependency", "undefined_characteristic_component", "cyclic_characteristics", "junction_cycle", "residual_from_ordinary_compartment", "add_residual_outflow", "two_residual_outflows", "unnested_cascade", "unnested_cascade_later_stage", "characteristic_on_unlisted_page", "capitalised_units", "delete_transitions_sheet", "delete_parameters_sheet", "delete_format_column",
@@ -24,5 +25,5 @@ MCMutations == {"none", "add_output_parameter", "undefined_compartment_in_transi
                 "progbook_reserved_program_name", "progbook_untargetable_parameter", "progbook_unknown_parameter", "progbook_unknown_effect_population", "progbook_unknown_program_in_effects",
                 "progbook_interaction_unknown_program", "progbook_no_target_compartment", "progbook_no_target_population", "progbook_missing_unit_cost", "progbook_missing_spending",
                 "progbook_outcome_without_baseline", "progbook_bad_coverage_interaction", "progbook_mixed_currencies", "progbook_delete_effects_sheet", "progbook_delete_spending_sheet",
-                "progbook_interaction_program_without_outcome"} \cup GenericMutations
+                "progbook_interaction_program_without_outcome"} \cup GenericMutations \cup TimedMutations
 ====
